@@ -463,7 +463,8 @@ fn run_small(acc: &mut Acc) {
         expect_err(acc, "count", &o, catch(|| c::Count::new(filter()).response(frame_of(&o))));
     }
     // grouped count: 1..=3 groups, songs/playtime in both orders per group, repeated group values
-    let groups = [("a", 1u64, 10u64), ("b b", 2, 20), ("a", u64::MAX, 0)];
+    let groups = [("a", 1u64, 10u64), ("", 2, 20), ("a", u64::MAX, 0)];
+    // (MPD reports songs that lack the grouping tag under an empty key)
     for n in 1..=3usize {
         for order_mask in 0..(1u32 << n) {
             let mut fields = Fields::new();
@@ -493,7 +494,7 @@ fn run_small(acc: &mut Acc) {
         expect_err(acc, "count-group", &o, catch(|| c::CountGrouped::new(Tag::Album).response(frame_of(&o))));
     }
     // list, plain
-    for vals in [vec![], vec!["a"], vec!["a", "b b", "", "a", "\u{e9}"]] {
+    for vals in [vec![], vec!["a"], vec![""], vec!["a", "b b", "", "a", "\u{e9}", " lead", "trail "]] {
         let fields: Fields = vals.iter().map(|v| f("Album", v)).collect();
         acc.replies += 1;
         acc.checks += 1;
